@@ -51,7 +51,8 @@ fn gen(rng: &mut Rng, tier: Tier) -> Value {
     Tier::Quick => rng.range(1, 3),
     Tier::Thorough => rng.range(1, 5),
   };
-  let cfg = GenCfg::hostile(depth);
+  let mut cfg = GenCfg::hostile(depth);
+  cfg.reversed_ops = true;
   json!({ "spec": gen_case(rng, &cfg), "share_instances": rng.chance(1, 2) })
 }
 
@@ -139,6 +140,7 @@ fn gen_miri(rng: &mut Rng, _tier: Tier) -> Value {
   cfg.max_text = 10;
   cfg.max_width = 3;
   cfg.max_ops = 3;
+  cfg.reversed_ops = true;
   json!({ "spec": gen_case(rng, &cfg), "share_instances": rng.chance(1, 2) })
 }
 
